@@ -972,6 +972,13 @@ func dial(laddr, raddr *net.TCPAddr) (*TCPConn, error) {
 	}
 	if laddr != nil && laddr.Port != 0 {
 		la.Port = laddr.Port
+		// an explicit local port: the bind fails while an earlier connection from that port is open or
+		// lingers in TIME_WAIT (it was closed by this side first) - no SO_REUSEADDR on a dialling socket
+		for _, x := range Fab.conns {
+			if x.Dialled && x.laddr.Port == la.Port && (!x.closed || (!x.rclosed && !x.reset)) {
+				return nil, fmt.Errorf("dial tcp %s: bind: address already in use (sim: local port %d is still held by an earlier connection)", key, la.Port)
+			}
+		}
 	} else {
 		la.Port = ephemeral()
 	}
@@ -1034,7 +1041,25 @@ type Dialer struct {
 	KeepAlive time.Duration
 }
 
-func (d *Dialer) Dial(network, address string) (net.Conn, error) { return Dial(network, address) }
+//go:norace
+func (d *Dialer) Dial(network, address string) (net.Conn, error) {
+	la, ok := d.LocalAddr.(*net.TCPAddr)
+	if !ok || la == nil {
+		return Dial(network, address)
+	}
+	if network != "tcp" && network != "tcp4" {
+		return nil, errNotSim("Dialer.Dial " + network)
+	}
+	ip, port, err := resolve(address)
+	if err != nil {
+		return nil, err
+	}
+	c, err := dial(la, &net.TCPAddr{IP: ip, Port: port})
+	if err != nil {
+		return nil, err
+	}
+	return c, nil
+}
 
 type ListenConfig struct{ KeepAlive time.Duration }
 
